@@ -6,6 +6,7 @@ def run(ck, fb, fbd):
     readers.Budget(ck, fb).run()
     readers.range_rules(ck, fb)
     readers.result_rules(ck, fb)
+    readers.edge_dup_rule(ck, fb)
     readers.empty_sequence_rules(ck, fb)
     readers.loop_rules(ck, fb)
     readers.exception_rules(ck, fb)
